@@ -120,7 +120,7 @@ def coq_audit_sources():
 
 
 PROP_FILES = {
-    "C02": ["C02", "C02u"], "C07": ["C07", "C07u"], "C09": ["C09", "C09u", "C09t"], "C16": ["C16", "C16b"],
+    "C02": ["C02", "C02u", "C00w"], "C07": ["C07", "C07u"], "C09": ["C09", "C09u", "C09t"], "C16": ["C16", "C16b"],
     "C12": ["C12", "C12m"], "C14": ["C14", "C14m"],
     "C18": ["C18", "C18b"], "C20": ["C20", "C20b"], "C03": ["C03", "C03e"],
 }
@@ -308,7 +308,7 @@ def run_model(driver, cases, level, checks=False, nocopy=False):
     return [parse_result(l) for l in run_parallel(cmd, lines)]
 
 
-def compare_case(case, rust, model):
+def compare_case(case, rust, model, stop_at_err=True):
     """None if the observable behaviour agrees, else a description.  Nothing after the first
     Err/Fail of a case is compared; a model Fail/Fuel (out of the modelled domain) ends the
     comparison unless the case demands an exact panic."""
@@ -354,7 +354,9 @@ def compare_case(case, rust, model):
         if rg[0] != st:
             return "op %d: status impl %d model %d (impl %r model %r)" % (i, rg[0], st, rg, mg)
         if st == 1:
-            return None
+            if stop_at_err:
+                return None
+            continue
         if len(rg) != len(mg):
             return "op %d: result shape impl %r model %r" % (i, rg, mg)
         for j in range(1, len(mg)):
